@@ -11,7 +11,7 @@ commits = [l.split()[0] for l in open(hooks_file) if l.strip()] if os.path.exist
 checks = []
 for pid in ids:
     sp = props.SPECS.get(pid)
-    if not sp:
+    if not sp or pid in getattr(props, 'DISABLED', set()):
         continue
     m = sp["manifest"]
     checks.append({
